@@ -131,10 +131,16 @@ let random_bitmap rs nf =
   L.map n_of_u64 (Array.to_list f)
 
 let one_schedule_run rs (mismatches : int ref) =
-  let nf = 1 + Random.State.int rs 3 in
+  (* every third run: heavy contention of multi-field claims (rollbacks, retries) *)
+  let contention = (Random.State.int rs 3 = 0) in
+  let nf = if contention then 2 + Random.State.int rs 2 else 1 + Random.State.int rs 3 in
   let nt = 2 + Random.State.int rs 3 in
-  let pre = random_bitmap rs nf in
+  let pre = if contention then L.init nf (fun i -> if i = 0 then n_of_int (Random.State.int rs 1024) else N0) else random_bitmap rs nf in
   let random_op () =
+    if contention then
+      (if Random.State.int rs 8 = 0 then Bitmap.OpPurge (n_of_int (64 + Random.State.int rs 8), n_of_int (1 + Random.State.int rs 3))
+       else Bitmap.OpClaim (n_of_int (Random.State.int rs 2), n_of_int (40 + Random.State.int rs (if nf = 2 then 50 else 100))))
+    else
     match Random.State.int rs 10 with
     | 0 | 1 -> Bitmap.OpPurge (n_of_int (Random.State.int rs (nf * 64)), n_of_int (1 + Random.State.int rs 6))
     | 2 | 3 -> Bitmap.OpClaim (n_of_int (Random.State.int rs (nf + 1)), n_of_int (1 + Random.State.int rs 2))
